@@ -161,7 +161,7 @@ func c15Child(args []string) int {
 	}
 	c15Logf(out, "C consuming end=%d total=%d", end, total)
 	_ = final
-	if allHanded && appendBefore+appendDuring == 0 {
+	if (allHanded || total == 0) && appendBefore+appendDuring == 0 {
 		// nothing is left to hand over: watch for spurious replays for a moment, then stop
 		go func() {
 			time.Sleep(300 * time.Millisecond)
@@ -408,6 +408,9 @@ func runC15(c *fw.Ctx) {
 		scen = append(scen, []c15Round{{appendBefore: 30, killPoint: "inCallback", killOffset: o}, {killPoint: "inCallback", killOffset: o + 10}, {killPoint: "afterCallback", killOffset: o + 12}, {final: true}})
 	}
 	scen = append(scen, []c15Round{{appendBefore: 520, killPoint: "inCallback", killOffset: 500}, {killPoint: "inCallback", killOffset: 500}, {final: true}})
+	// a consumer started on an empty log and stopped cleanly before the first message exists
+	scen = append(scen, []c15Round{{}, {appendBefore: 3, stopAfter: 2}, {}, {appendBefore: 2, final: true}})
+	scen = append(scen, []c15Round{{}, {}, {appendBefore: 12, killPoint: "afterCallback", killOffset: 0}, {final: true}})
 	// graceful stops and appends between/concurrently
 	scen = append(scen, []c15Round{{appendBefore: 12, stopAfter: 5}, {appendBefore: 10, stopAfter: 7}, {appendDuring: 25, stopAfter: 20}, {final: true}})
 	scen = append(scen, []c15Round{{appendBefore: 1, stopAfter: 1}, {appendBefore: 1, stopAfter: 1}, {appendBefore: 3, killPoint: "afterCallback", killOffset: 3}, {final: true}})
